@@ -46,7 +46,7 @@ META = {
         technique='static analysis: signed-term linearisation of return expressions through reaching definitions (R-LIN) + einsum contraction-structure rules (R-EIN)',
         level='For all 8 distribution classes the linearised log_pdf / log-normaliser is checked atom by atom (sign, numeric coefficient, symbolic factors D, kappa, 1/2, Bessel order, '
               '1F1 arguments, sphere-area factor, partial-fraction form) and every quadratic / inner-product form on its contraction structure (conjugation, row index of the '
-              'precision Cholesky factor, per-feature scaling, reciprocal eigenvalues); the Bingham duplicate-eigenvalue spreading uses an absolute positive gap. Numerical values of special functions and integration to one are NOT decided.',
+              'precision Cholesky factor, per-feature scaling, reciprocal eigenvalues); the Bingham duplicate-eigenvalue spreading uses an absolute positive gap. Numerical values of special functions and integration to one are NOT decided. Also: no returned log-density of the complex families is complex-typed (R-REAL).',
         note='Trusted: density definitions, scikit-learn factor contract Sigma^-1 = P P^T. An unrecognised atom is unresolved (floor on recognised atoms), never an alarm.',
         design='DESIGN.md section 3 (C07)'),
     'C08': dict(
@@ -55,7 +55,7 @@ META = {
               'model under `model is not None` before it, aligner only in between, affiliation flow); saliency / weight_constant_axis / affiliation_eps plumbing for all 7 M-steps; '
               'fit_predict forwards every option by name; weighted estimators contract the shared observation index and divide by the saliency mass; Tyler weight and factor D; vMF clipping; '
               'principal eigenpair. Closeness to the defining formulas / convergence are NOT decided. '
-              'Also: Hermitian scatter (one conj) in the complex estimators, default saliency = ones / given saliency kept, vMF concentration r(D - r^2)/(1 - r^2) and mean resultant length in rational normal form, one gather by one mapping for posterior and quadratic form in the inline alignment.',
+              'Also: Hermitian scatter (one conj) in the complex estimators, default saliency = ones / given saliency kept, vMF concentration r(D - r^2)/(1 - r^2) and mean resultant length in rational normal form, one gather by one mapping for posterior and quadratic form in the inline alignment. Also (text-level survey): per alternative of the subscript string the saliency mass gets exactly the axes the statistic keeps, every summed feature axis is counted in the normaliser, and option string / model class / kept axes of GaussianTrainer._fit belong together; the inline alignment is a typestate (one gather, on the (K, F, T) layout, returned as (F, K, T)).',
         note='Trusted: parameter naming of the estimators. Shares rule instances with C01-C03.',
         design='DESIGN.md section 3 (C08)'),
     'C10': dict(
@@ -64,7 +64,7 @@ META = {
               'index first), the mask normalisation (time axis parameter, positive floor, only under normalize), the frame-count normaliser, the defensive copy (no in-place effect reaches '
               'mask / observation), existence of every numpy attribute used (boolean-mask conversion), the roll guard and the form of condition_covariance. '
               'PSD-ness and numeric layout equivalence are NOT decided. '
-              'Every division of the mask by a mask-derived quantity is the floored time-axis sum.',
+              'Every division of the mask by a mask-derived quantity is the floored time-axis sum. Also: every contraction operand goes back to the caller\'s array through exactly one reordering to (..., sensor_dim, time_dim) resp. (..., source_dim, time_dim).',
         note='Trusted: the defining formula in the property statement, numpy semantics table; numpy is imported only to resolve attribute names.',
         design='DESIGN.md section 3 (C10)'),
     'C11': dict(
@@ -80,7 +80,7 @@ META = {
         level='eigh(target, noise) argument order, arg-max eigenvalue column / last pair of the ascending eigh, outer products with the conjugate on the second factor rescaled by '
               'tr(Phi)/tr(a a^H), Phi_nn w contracting the column index, both BAN chains and the (..., 1)-shaped absolute gain. Maximality of Rayleigh quotients is NOT decided; '
               'Cython variants are not analysed. '
-              'Also: BAN gain = sqrt(two-factor form) / magnitude of the one-factor form, in either operand order, np.divide(where=) or masked assignment.',
+              'Also: BAN gain = sqrt(two-factor form) / magnitude of the one-factor form, in either operand order, np.divide(where=) or masked assignment. Also: the option string \'trace\' / \'eigenvalue\' selects the gain of that name.',
         note='Trusted: scipy.linalg.eigh(a, b) convention, numpy eigh ordering.',
         design='DESIGN.md section 3 (C12)'),
     'C13': dict(
@@ -88,14 +88,14 @@ META = {
         level='For all 12 names x {plain, +ban} plus chN: the primitives called, their order, the slots they are chained through and the returned value equal the composition the name spells. '
               'apply_beamforming_vector contracts conj(w) with the sensor axis; every literal axis in (..., )-documented beamforming functions counts from the right (phase_correction: -2); '
               'stable_solve falls back per matrix, index-local; MVDR solves stacks as columns. Finite-ness on singular input is NOT decided. '
-              'Also: phase_correction rotates bin f by the phase of w_f^H w_{f-1} summed over sensors and accumulates phasors by a product; every data reduction in the per-index helpers names its axis.',
+              'Also: phase_correction rotates bin f by the phase of w_f^H w_{f-1} summed over sensors and accumulates phasors by a product; every data reduction in the per-index helpers names its axis. Also: every array indexed by the flat loop index of stable_solve is a stack flattened to 3-D; no dropped clamp in the beamformer modules.',
         note='Trusted: the naming convention of the wrapper itself; exceptions table for front-broadcast / fixed-layout axes.',
         design='DESIGN.md section 3 (C13)'),
     'C14': dict(
         technique='static analysis: permutation-provenance rules on term graphs (R-PERM), AST idiom recognisers for the exhaustive arg-max and greedy retire loops (R-SEL c/d)',
         level='apply_mapping is a pure gather; the inline EM alignment is value preserving with one mapping for affiliation and quadratic form; calculate_mapping of all three aligners '
               'returns columns of permutation provenance; the greedy assignment meets the retire premises (K arg-max picks over a view-consistent, on every path C-contiguous copy, chosen row AND column retired with -inf, '
-              'row -> column, after the finiteness guard); both exhaustive searches enumerate every permutation of the full class count with a strict arg-max from -inf, paired update, no early exit.',
+              'row -> column, after the finiteness guard); both exhaustive searches enumerate every permutation of the full class count with a strict arg-max from -inf, paired update, no early exit. The inline EM alignment is decided as a typestate: each returned stream is its input, gathered by the mapping exactly once on the aligner\'s layout and returned in the caller\'s.',
         note='Assumption: integer score matrices never contain iinfo.min. Trusted: semantics of itertools.permutations and numpy advanced indexing.',
         design='DESIGN.md section 3 (C14)'),
     'C15': dict(
@@ -112,7 +112,7 @@ META = {
               'on a copy, centroid from the current features); the greedy aligner composes adjacent-bin assignments with the composed predecessor in increasing f from an identity column. '
               'Of plan coverage only a necessary condition is decided: for every outcome of the branch conditions of alignment_plan some segment is stretched to each band edge (0 and F). '
               'Recovery of a consistent order, identity on consistent masks and full plan coverage are NOT decided (no sound static argument in reach). '
-              'Also decided: the bins re-assigned in a DHTV segment are the bins its centroid was averaged over, cosine features are normalised over time, every planned segment spans segment_width bins.',
+              'Also decided: the bins re-assigned in a DHTV segment are the bins its centroid was averaged over, cosine features are normalised over time, every planned segment spans segment_width bins. Also: under \'cos\' neither the bin\'s features nor the centroid reach the per-bin score without the time normaliser.',
         note='The behavioural clauses of C16 quantify over all masks / all plan configurations; see DESIGN.md section 6.',
         design='DESIGN.md section 3 (C16)'),
     'C05': dict(
@@ -135,14 +135,14 @@ META = {
         level='Each parameter stored in a fitted model is the value of its documented sanitiser with the documented bounds as operands (vMF clip and floored-norm mean, Watson saturating '
               'spline, cACG max-normalisation + floor + finiteness assert + Hermitian scatter, Bingham bounded solver + floor + Hermitian scatter, uniform / L1-normalised weights, floored '
               'Gaussian mass, Cholesky at construction). NaN-freeness on arbitrary degenerate data is NOT decided. '
-              'Also: a relative eigenvalue floor is relative to the largest eigenvalue.',
+              'Also: a relative eigenvalue floor is relative to the largest eigenvalue. Also: no statement-level floor / clamp is computed and dropped (R-DROP).',
         note='Trusted: sanitiser-per-field table from the documentation.',
         design='DESIGN.md section 3 (C09)'),
     'C18': dict(
         technique='static analysis: axis-parametricity rule, form rules on term graphs, integer typing of shape arithmetic, may-alias in-place analysis',
         level='Every axis-consuming call in the 9 mask functions takes its axis from a parameter (literals only on the restored 2-D working array); binary / ratio / amplitude / phase-sensitive / '
               'complex masks have their defining form with the sum over source_axis; eps defaults are positive also in single precision; flatten dimensions are integers; quantile direction per sign; no caller mutation. '
-              'Threshold semantics on values and ties are NOT decided.',
+              'Threshold semantics on values and ties are NOT decided. Also: what the quantile mask ranks and compares are magnitudes (no path from the signal avoids abs).',
         note='Trusted: mask definitions in the statement; sibling lorenz_mask as reference idiom.',
         design='DESIGN.md section 3 (C18)'),
     'C19': dict(
@@ -150,7 +150,7 @@ META = {
         level='Both SXR functions compute _sxr(S, I+N), _sxr(S, I), _sxr(S, N) with identical S and the first denominator the sum of the others (for the pure ratio _sxr); own-source exclusion; input_sxr pools the sensors in the power domain (operands of _sxr are sensor means under average_channels, dB values are reduced over the source axis only); '
               'complete enumeration + arg-MAX output selection; return_dict True / prefix / False specialisations return dict / dict / tuple for both siblings; si_sdr reduces over -1 only with the '
               'projection form; set_snr exponent. dB values and scaling laws as numbers are NOT decided. '
-              'Also: power helper = mean |X|^2 over the axis parameter, set_snr multiplies the noise by the factor measured with keepdims over the same axis, the captured power is evaluated for every enumerated selection.',
+              'Also: power helper = mean |X|^2 over the axis parameter, set_snr multiplies the noise by the factor measured with keepdims over the same axis, the captured power is evaluated for every enumerated selection. Also: SDR, SIR and SNR go through the same post-processing after _sxr.',
         note='Trusted: metric definitions in the statement.',
         design='DESIGN.md section 3 (C19)'),
 }
